@@ -1,11 +1,11 @@
 /-
   C03 — *source programs*.  A deep embedding of the small Python subset in which the bodies of
-  `Stream.take / copy / peek / skip / limit / append / map / filter`, `StreamTeeHub.take / copy / __iter__`
-  and the `StreamTeeHub` overrides are written, and the interpreter that gives a program its meaning in
+  `Stream.take / copy / peek / skip / limit / append / map / filter`, `StreamTeeHub.__init__ / take / copy / __iter__`,
+  the `StreamTeeHub` overrides, `thub` and `lazy_itertools.tee` are written, and the interpreter that gives a program its meaning in
   the vocabulary of the history model (Model/C03.lean: `It` terms, `teeOf`, `takeWith`, `target`, `rebind`).
 
   The programs themselves are NOT written here: `lean/ALV/Gen/C03Src.lean` is regenerated from
-  `audiolazy/lazy_stream.py` by `harness/props/c03_tr.py` on every run of the check, and
+  `audiolazy/lazy_stream.py` (and `lazy_itertools.py`) by `harness/props/c03_tr.py` on every run of the check, and
   `Props/C03.lean` proves `src_*_is_model`: the interpretation of the regenerated program of each method is the
   hand-written model function of that method (`stepP Gen.progs = step`).
 
@@ -92,6 +92,62 @@ inductive HubBody where
   | plain (body : Body)
   deriving Repr, DecidableEq
 
+/-- what `thub(data, n)` hands back in one arm of its conditional expression -/
+inductive TRet where
+  | mkHub (args : List String)          -- `StreamTeeHub(<args>)`
+  | data                                -- `data` itself
+  deriving Repr, DecidableEq
+
+/-- `thub`: `return <thenR> if isinstance(<test.1>, <test.2>) else <elseR>` -/
+structure ThubBody where
+  test : String × String
+  thenR : TRet
+  elseR : TRet
+  deriving Repr, DecidableEq
+
+/-- statements of `StreamTeeHub.__init__` (locals renamed v0, v1, … in binding order) -/
+inductive HIStmt where
+  | superInit (args : List String)      -- `super(StreamTeeHub, self).__init__(<args>)`
+  | bindSuperIter (v : String)          -- `v = super(StreamTeeHub, self).__iter__()`
+  | setIters (src n : String)           -- `self._iters = list(it.tee(src, n))`
+  deriving Repr, DecidableEq
+
+/-- what `lazy_itertools.tee(data, n)` hands back in one arm (generator variables normalised away) -/
+inductive TeeRet where
+  | streamsOfTee (src n : String)       -- `tuple(Stream(cp) for cp in it.tee(src, n))`
+  | repeatOf (x n : String)             -- `tuple(x for unused in xrange(n))`
+  deriving Repr, DecidableEq
+
+/-- `lazy_itertools.tee`: `if isinstance(<test.1>, <test.2>): return <thenR>  else: return <elseR>` -/
+structure TeeBody where
+  test : String × List String
+  thenR : TeeRet
+  elseR : TeeRet
+  deriving Repr, DecidableEq
+
+/-- conditions of `Stream.__init__(self, *dargs)` -/
+inductive ICond where
+  | lenEq (k : Nat)                     -- `len(dargs) == k`
+  | isIter0                             -- `isinstance(dargs[0], Iterable)`
+  | allIter                             -- `all(isinstance(arg, Iterable) for arg in dargs)`
+  | noneIter                            -- `not any(isinstance(arg, Iterable) for arg in dargs)`
+  deriving Repr, DecidableEq
+
+/-- what `Stream.__init__` stores in `self._data` -/
+inductive IData where
+  | iter0                               -- `iter(dargs[0])`
+  | repeat0                             -- `it.repeat(dargs[0])`
+  | chainIters                          -- `it.chain(*[iter(arg) for arg in dargs])`
+  | cycleArgs                           -- `it.cycle(dargs)`
+  deriving Repr, DecidableEq
+
+/-- the body of `Stream.__init__`: a tree of `if / elif / else` with one statement per arm -/
+inductive ITree where
+  | raise (kind : String)               -- `raise kind(…)`
+  | setData (d : IData)                 -- `self._data = d`
+  | ite (c : ICond) (a b : ITree)
+  deriving Repr, DecidableEq
+
 /-- the regenerated programs -/
 structure Progs where
   take : Body
@@ -110,6 +166,9 @@ structure Progs where
   hubAppend : HubBody
   hubMap : HubBody
   hubFilter : HubBody
+  thub : ThubBody
+  hubInit : List HIStmt
+  tee : TeeBody
   deriving Repr, DecidableEq
 
 /-! ### meaning of counts -/
@@ -406,6 +465,129 @@ def inPlace (body : Body) (via : Bool) (st : St α) (i : Nat) (c : Cnt) (g : α 
         | .error (.eager e) => some (st'', .err e)
         | .ok it' => some (rebind st'' i k it')
 
+/-! ### `Stream.__init__`: the argument list of `Stream(...)` / `append(...)` -/
+
+def evalICond : ICond → List (CArg α) → Bool
+  | .lenEq k, args => args.length == k
+  | .isIter0, a :: _ => a.iterable
+  | .isIter0, [] => false                                   -- IndexError in Python; every use is guarded by `len`
+  | .allIter, args => args.all CArg.iterable
+  | .noneIter, args => args.all (fun a => !a.iterable)
+
+/-- several iterables: every `iter(arg)` is asked when the call is made; the literal lists are chained, at most one
+    existing object may be among them (more: "unsupported" — not in the history model) -/
+def chainItersOf (args : List (CArg α)) : Except String (ALV.C03.Src α) :=
+  match listsOf args with
+  | some xss => .ok (.chain xss)
+  | none =>
+    match splitObj args with
+    | some (pre, j, post) =>
+      match listsOf post with
+      | some yss => .ok (.mixed pre j yss.flatten)
+      | none => .error "unsupported"
+    | none => .error "unsupported"
+
+/-- the data slot in the vocabulary `Src` of the history model (its meaning as an iterator term is `mkSrc`:
+    `iter(list)` = `.src`, `iter(object)` = its iterator / one use, `it.repeat(v)` = `.cyc [v]`, `it.cycle(vs)` = `.cyc vs`,
+    `it.chain(*[iter(a) …])` = `chainSrc` / the `.mixed` chain); `iter` of a non-iterable is a TypeError -/
+def evalIData : IData → List (CArg α) → Except String (ALV.C03.Src α)
+  | .iter0, [.lst xs] => .ok (.list xs)
+  | .iter0, [.obj j] => .ok (.obj j)
+  | .iter0, [.endless per] => .ok (.cyc per)
+  | .iter0, [.scalar _] => .error "TypeError"
+  | .iter0, _ => .error "unmodelled"
+  | .repeat0, [.scalar v] => .ok (.const v)
+  | .repeat0, _ => .error "unmodelled"                      -- an endless repeat of an iterable object: not in the model
+  | .chainIters, args => if args.all CArg.iterable then chainItersOf args else .error "TypeError"
+  | .cycleArgs, args =>
+    if args.all (fun a => !a.iterable) then .ok (.cyc (scalarsOf args)) else .error "unmodelled"
+
+/-- `Stream.__init__(*dargs)` as its program says -/
+def initP : ITree → List (CArg α) → Except String (ALV.C03.Src α)
+  | .raise k, _ => .error k
+  | .setData d, args => evalIData d args
+  | .ite c a b, args => if evalICond c args then initP a args else initP b args
+
+/-! ### `thub` and `StreamTeeHub.__init__` -/
+
+/-- the object under construction by `StreamTeeHub.__init__` -/
+structure HEnv (α : Type) where
+  st : St α
+  data : Option (It α)                  -- `self._data` once `Stream.__init__` has run
+  vars : List (String × It α)
+  iters : Option (List (It α))          -- `self._iters`
+
+/-- `super().__init__(data)` is `mkSrc` (the iterator `Stream(data)._data`; an existing object gives its iterator /
+    one of its uses), `super().__iter__()` is `self._data`, `list(it.tee(v, n))` is `n` times the output of `teeOf` -/
+def execHI : List HIStmt → HEnv α → Src α → Nat → Except String (HEnv α)
+  | [], e, _, _ => .ok e
+  | .superInit args :: r, e, s, n =>
+    if args == ["data"] then
+      match mkSrc e.st s with
+      | .error x => .error x
+      | .ok (st', it) => execHI r { e with st := st', data := some it } s n
+    else .error "unmodelled"
+  | .bindSuperIter v :: r, e, s, n =>
+    match e.data with
+    | none => .error "AttributeError"
+    | some it => execHI r { e with vars := (v, it) :: e.vars } s n
+  | .setIters v k :: r, e, s, n =>
+    if k == "n" then
+      match lookupVar v e.vars with
+      | none => .error "NameError"
+      | some it =>
+        let ht := teeOf e.st.heap it
+        execHI r { e with st := ⟨ht.1, e.st.pool⟩, iters := some (List.replicate n ht.2) } s n
+    else .error "unmodelled"
+
+/-- `StreamTeeHub(data, n)` as the program of `__init__` says: the new hub is appended to the pool -/
+def hubInitP (body : List HIStmt) (st : St α) (s : Src α) (n : Nat) : Option (St α × Obs α) :=
+  match execHI body ⟨st, none, [], none⟩ s n with
+  | .error x => some (st, .err x)
+  | .ok e =>
+    match e.iters with
+    | none => some (st, .err "unmodelled")
+    | some us => some (⟨e.st.heap, e.st.pool ++ [.hub us]⟩, .new e.st.pool.length)
+
+/-- `thub(data, n)` as its program says; `isinstance(data, Iterable)` is false exactly for `Src.const` -/
+def thubP (P : Progs) (st : St α) (s : Src α) (n : Nat) : Option (St α × Obs α) :=
+  if P.thub.test == ("data", "Iterable") then
+    match (match s with | .const _ => P.thub.elseR | _ => P.thub.thenR) with
+    | .data =>
+      match s with
+      | .const v => some (st, .const v)
+      | _ => some (st, .err "unmodelled")                    -- an iterable handed back as it is: not in the model
+    | .mkHub args => if args == ["data", "n"] then hubInitP P.hubInit st s n else some (st, .err "unmodelled")
+  else some (st, .err "unmodelled")
+
+/-- `lazy_itertools.tee(x_i, n)` on an object of the pool as its program says.  Every object of the pool is a Stream
+    or a StreamTeeHub (a subclass), so `isinstance(data, K)` holds exactly when `Stream` is among `K`;
+    `it.tee(data, n)` asks `iter(data)` (`mkSrc` on the object: a Stream is moved, a hub gives a use) and its `n`
+    outputs are `teeOf`; `Stream(cp)` of each is a new Stream of the pool. -/
+def teeP (P : Progs) (st : St α) (i n : Nat) : Option (St α × Obs α) :=
+  if P.tee.test.1 == "data" then
+    match (if P.tee.test.2.contains "Stream" then P.tee.thenR else P.tee.elseR) with
+    | .streamsOfTee src k =>
+      if src == "data" && k == "n" then
+        match mkSrc st (.obj i) with
+        | .error e => some (st, .err e)
+        | .ok (st', it) =>
+          let ht := teeOf st'.heap it
+          some (⟨ht.1, st'.pool ++ List.replicate n (.stream ht.2)⟩, .news ((List.range n).map (· + st'.pool.length)))
+      else some (st, .err "unmodelled")
+    | .repeatOf _ _ => some (st, .err "unmodelled")           -- n times the same object: not an operation of the model
+  else some (st, .err "unmodelled")
+
+/-- `lazy_itertools.tee(v, n)` on a non-iterable `v` as the program says: `v` is an instance of none of `Stream`,
+    `Iterator`, `Iterable` (any other class in the test: "unmodelled"), so the else arm runs:
+    `tuple(data for unused in xrange(n))` is `n` times `v` -/
+def teeScalarP (b : TeeBody) (v : α) (k : Nat) : Obs α :=
+  if b.test.1 == "data" && b.test.2.all (fun c => c == "Stream" || c == "Iterator" || c == "Iterable") then
+    match b.elseR with
+    | .repeatOf x n => if x == "data" && n == "n" then .items (List.replicate k v) else .err "unmodelled"
+    | .streamsOfTee _ _ => .err "TypeError"                  -- `it.tee` asks `iter(v)`
+  else .err "unmodelled"
+
 def stepP (P : Progs) (f : Nat) (st : St α) : Op α → Option (St α × Obs α)
   | .take i c =>
     match st.pool[i]? with
@@ -453,7 +635,9 @@ def stepP (P : Progs) (f : Nat) (st : St α) : Op α → Option (St α × Obs α
       | .ok (h1, d, b) => some (⟨h1, st.pool.set i (.hub (d :: us)) ++ [.stream b]⟩, .new st.pool.length)
     | some (.hub []) => some (st, .err (popErrP P.hubIter))
     | _ => some (st, .err "noobj")
-  -- the constructor, `next(iter(x))`, `list(x)`, `thub`, `tee`: not under the translator
+  | .thub s n => thubP P st s n
+  | .tee i n => teeP P st i n
+  -- the constructor, `next(iter(x))`, `list(x)`: not under the translator
   | op => step f st op
 
 /-- a whole history run by the programs (the `run` of the history model with `stepP P` for `step`) -/
@@ -485,7 +669,11 @@ def sigModel : List (String × List (String × Option String)) := [
   ("StreamTeeHub.skip", [("self", none), ("n", none)]),
   ("StreamTeeHub.append", [("self", none), ("*other", none)]),
   ("StreamTeeHub.map", [("self", none), ("func", none)]),
-  ("StreamTeeHub.filter", [("self", none), ("func", none)])]
+  ("StreamTeeHub.filter", [("self", none), ("func", none)]),
+  ("StreamTeeHub.__init__", [("self", none), ("data", none), ("n", none)]),
+  ("thub", [("data", none), ("n", none)]),
+  ("Stream.__init__", [("self", none), ("*dargs", none)]),
+  ("lazy_itertools.tee", [("data", none), ("n", some "2")])]
 
 /-- the default of parameter `p` of `q`: `none` = no such parameter, `some none` = required -/
 def sigDefault (sigs : List (String × List (String × Option String))) (q p : String) : Option (Option String) :=
